@@ -17,25 +17,37 @@ def pure(quick_s, thorough_s, variant="verif", tiers=("quick", "thorough")):
     return {"engine": "pure", "variant": variant, "budget_ms": {"quick": quick_s * 1000, "thorough": thorough_s * 1000}, "tiers": tiers}
 
 
+REAL_ASSUME = [
+    "E2: the real n2 binary (built from /repo's working tree, optimised, debug assertions on) runs real /bin/sh commands (`n2v-agent <step> v<ver>`) in generated project directories on tmpfs; the agents log S after they started and E before they exit, so a logged interval lies inside the true execution interval",
+]
+
+
+def real(quick_s, thorough_s, extra=(), tiers=("quick", "thorough"), n2="verif"):
+    # process creation does not scale with cores in this sandbox (measured: ~400-600 spawns/s in total,
+    # whether from 1 or 16 processes), so more shards add nothing for the black-box engine
+    return {"engine": "real", "variant": "verif", "needs_n2_binary": n2, "extra": list(extra), "shards": 6,
+            "budget_ms": {"quick": quick_s * 1000, "thorough": thorough_s * 1000}, "tiers": tiers}
+
+
 def sim(quick_s, thorough_s):
     return {"engine": "sim", "variant": "verif", "budget_ms": {"quick": quick_s * 1000, "thorough": thorough_s * 1000}}
 
 
 PROPS = {
     "C01": {
-        "stages": [sim(20, 420)],
+        "stages": [sim(20, 420), real(8, 180)],
         "rule": "random DAG projects (2-14 steps, multi-output, order-only, validation, phony, pools, optional generated manifest) x initial state (fresh / built+edited) x -j/-k/targets/fault plan x completion order (systematic DFS over all completion orders when <= 5 (quick) / 7 (thorough) commands run, else FIFO/LIFO/random/hold policies); non-trivial = at least 2 commands ran and an ordering edge connects two steps that both ran; distinct by hash(graph shape, configuration, start/finish event sequence)",
         "must_observe": ["events", "dfs_complete_cases", "validation_pairs_checked"],
         "assumptions": SIM_ASSUME,
     },
     "C04": {
-        "stages": [sim(20, 360)],
+        "stages": [sim(20, 360), real(8, 180)],
         "rule": "wide random DAGs (4-24 steps) with 0-3 pools of depth 0-3 plus console, -j 1-8, failures that free slots, policies that keep pools full; online monitor at every start (|running| <= j, per-pool <= depth, using the generator's pool assignment) and at every scheduler iteration (n2's own counters == harness running set); non-trivial = a limit was binding at some instant (something queued while -j or its pool was full) and commands ran; distinct by hash(shape, config, event sequence)",
         "must_observe": ["events", "limit_binding_instants", "undeclared_pool_cases"],
         "assumptions": SIM_ASSUME,
     },
     "C05": {
-        "stages": [sim(20, 420)],
+        "stages": [sim(20, 420), real(8, 180)],
         "rule": "random DAGs x fault plans (1-3 failing steps: write nothing / all / some outputs then fail; interrupts) x -k in {1,2,3,100} x -j x completion orders (systematic for small cases); online containment and budget monitors, exit status check, and a fault-free follow-up invocation whose started set must equal the reference model's prediction; non-trivial = at least one failure, one step blocked by it and one unblocked step that ran",
         "must_observe": ["events", "followups_checked"],
         "assumptions": SIM_ASSUME,
@@ -47,32 +59,32 @@ PROPS = {
         "assumptions": SIM_ASSUME,
     },
     "C18": {
-        "stages": [sim(20, 300)],
+        "stages": [sim(20, 300), real(8, 180)],
         "rule": "random DAGs with 0-3 default statements, command-line target subsets of size 0-4 under random canon-equivalent spellings; started set must equal the model's dirty steps of the closure (all edge kinds), no step outside the closure may even be considered by the scheduler (state snapshot at every iteration); non-trivial = closure is a strict non-empty subset of the steps",
         "must_observe": ["events"],
         "assumptions": SIM_ASSUME,
     },
     "C19": {
-        "stages": [sim(20, 300)],
+        "stages": [sim(20, 300), real(6, 120)],
         "rule": "C01/C05 workloads with the progress monitor on: at every Progress::update and scheduler iteration total == non-phony wanted steps, counts == histogram of per-step states, count[running] == executor's running set, done+failed monotone, task_started/finished bracket executor events, final `ran N` == successful completions; non-trivial = execution with a wanted phony step, an up-to-date step and a step that ran",
         "must_observe": ["events", "progress_updates_observed"],
         "assumptions": SIM_ASSUME,
     },
     "C02": {
-        "stages": [sim(25, 480)],
+        "stages": [sim(25, 480), real(8, 180)],
         "rule": "histories of 3-12 operations over generated projects (2-10 steps, discovered deps, restat-like and non-writing commands): edit/touch/delete sources, delete/touch/overwrite outputs, change command text or rspfile content, add/remove steps and edges, change a command's include set (with an edit of a file it reads), builds of random target subsets with random -j/-k/completion policy and failing commands; after every successful invocation the content of every output in the closure of the requested targets is compared with the reference model's clean-build content, and the started set must contain the model's dirty set; non-trivial = history with >= 2 builds and an edit in between that dirties a strict non-empty subset of the wanted steps; distinct by hash(operations, event sequences)",
         "must_observe": ["events", "outputs_compared"],
         "assumptions": SIM_ASSUME + ["a content change comes with an mtime change (the harness's logical clock), nothing writes the tree during an invocation, phony outputs are never dirtying inputs"],
     },
     "C03": {
-        "stages": [sim(25, 480)],
+        "stages": [sim(25, 480), real(8, 180)],
         "rule": "C02's histories restricted to projects in which every declared input and output exists after a build (effects: write, write-if-changed, touch-own-input), plus an immediate no-edit rebuild after successful builds and `-t restat` (adopt) episodes; the started set of every invocation must equal the reference model's prediction exactly (manifest dirty rule written from the property statement); non-trivial as C02",
         "must_observe": ["events", "noop_rebuilds_checked", "restat_episodes"],
         "assumptions": SIM_ASSUME,
     },
     "C07": {
         "level": "fault_enumeration",
-        "stages": [sim(30, 480)],
+        "stages": [sim(30, 480), real(10, 240)],
         "rule": "for generated histories (0-2 complete builds with edits, then a build that is abandoned): every db write of that build x every byte count 0..len that reaches the file (quick: all counts for records <= 12 bytes, first/last 4 and a third of the middle counts for longer ones; thorough: all), fault injected at the hook in front of every append; then a fault-free build (must load the log, run exactly the model's prediction with the record store = completely written records, and what n2 loaded per step must equal what an independent reader of the file finds), the log must then be a well-formed file, and a third build must be a no-op; non-trivial = crash strictly inside a record; distinct by (graph shape, write index, byte count)",
         "must_observe": ["crash_points", "crash_points_mid_record"],
         "assumptions": SIM_ASSUME + ["crash model: a byte prefix of what n2 appends reaches the file (no reordering/loss of earlier writes)"],
@@ -84,13 +96,13 @@ PROPS = {
         "assumptions": SIM_ASSUME,
     },
     "C09": {
-        "stages": [sim(20, 420), pure(5, 60)],
+        "stages": [sim(20, 420), pure(5, 60), real(8, 180)],
         "rule": "histories in which a command's reported dependency set grows, shrinks, overlaps declared and order-only inputs, repeats under several spellings (./x, a/../x, x), names missing files, with header edits/deletions in between; exact run-set comparison with the reference model (dep set = canonicalised, de-duplicated, minus declared dirtying inputs; replaced wholesale on success), recorded dep lists decoded from the log writes and compared, clean-build content comparison; non-trivial as C02",
         "must_observe": ["events", "noop_rebuilds_checked"],
         "assumptions": SIM_ASSUME + ["E1 hands the reported list to n2 directly; depfile/showIncludes parsing is covered by C15 and the pure stage"],
     },
     "C17": {
-        "stages": [sim(25, 420)],
+        "stages": [sim(25, 420), real(8, 180)],
         "rule": "projects whose manifest is the output of a generator step with 1-3 future generations (changed commands, added/removed steps, rewired inputs); histories of generator-input edits, source/output edits, builds of random targets, failing generator; per phase the started set must equal the model's prediction for the old (phase 1) and new (phase 2) generation, a reload must happen iff a command ran in phase 1, the graph loaded after the reload must be the new text, and nothing may run after a failed regeneration; non-trivial = invocation with a reload",
         "must_observe": ["events", "invocations_with_reload"],
         "assumptions": SIM_ASSUME + ["a manifest named as a target is treated as built in phase 1 (n2's documented design); its closure is not re-examined against the new text"],
@@ -108,13 +120,13 @@ PROPS = {
         "assumptions": PURE_ASSUME,
     },
     "C12": {
-        "stages": [pure(30, 420)],
+        "stages": [pure(30, 420), real(6, 120)],
         "rule": "(i) exhaustive: all sequences of <= 4 (quick) / 5 (thorough) tokens over 34 Ninja tokens (keywords, identifiers, spaces, newline, : | || |@ = $ '$ ' $-newline ${ } $x # tab NUL CR e-acute 0xff . .. / digit), each with and without a final newline, loaded from memory; (ii) mutations of valid generated manifests (truncate at a byte, delete/duplicate/swap ranges, raw bytes, dropped final newline, 10-800 character lines of multi-byte characters around an error, paths of 1-200 components, empty expansions); (iii) raw random bytes; (iv) depfile bytes; (v) deep/empty paths straight into the canonicaliser; (vi) include/subninja of itself, of a cycle, of a directory, of a missing file, of an empty expansion. Oracle: no panic, no abort (ub_checks/overflow/stack overflow kill the worker and are attributed by bisection), Ok or a non-empty diagnostic; parse errors must have the `parse error: ...`, `<file>:<line>: excerpt`, caret-line shape with the line in range; non-trivial = input that gets past the first statement keyword; evidence lists the distinct parser outcomes reached",
         "must_observe": ["exhaustive_inputs", "mutated_inputs", "include_cycle_inputs", "path_inputs", "depfile_inputs"],
         "assumptions": PURE_ASSUME + ["process-level clauses (exit status 1, `n2: error:` prefix) are checked by the black-box stage when present"],
     },
     "C13": {
-        "stages": [pure(12, 240)],
+        "stages": [pure(12, 240), real(6, 120)],
         "rule": "exhaustive over {a . / \\}^n for n <= 9 (quick) / 11 (thorough) and {a b . /}^n for n <= 8 / 10, then random paths of 1-60 components (UTF-8 names, .., ., empty, mixed separators) and re-spellings (inserted ./, x/../, doubled separators before the last component) which must canonicalise identically; checks: equals the independent component-list canonicaliser, idempotent, never longer, no ., empty or name/.. component left, .. only leading, same location; assert_unchecked/set_len preconditions are checked by the build profile; non-trivial = canon(p) != p",
         "must_observe": ["exhaustive_inputs", "random_inputs", "respell_pairs"],
         "assumptions": PURE_ASSUME,
@@ -136,5 +148,11 @@ PROPS = {
         "rule": "exhaustive: strings of <= 6 (quick) / 7 (thorough) characters over {a, e-acute, katakana BI, emoji} with 0/3/9 bytes of ASCII padding x columns 10..len+15 x seconds {0,2,3,99,100,999,1000,99999,10^6} through task_message, every max through truncate, all state-count vectors with total <= 12 through progress_bar(40); random long strings (combining marks, raw non-UTF-8 bytes through from_utf8_lossy), widths 10-300, large counts; oracle: no panic, result = prefix at a character boundary + ... + time note, at most max(cols, note+3) bytes, unchanged iff it fits, bar exactly 40 bytes; non-trivial = the naive cut position falls inside a multi-byte character",
         "must_observe": ["exhaustive_strings", "exhaustive_count_vectors", "random_inputs"],
         "assumptions": PURE_ASSUME + ["end-to-end pty runs are a separate black-box stage when present"],
+    },
+    "C16": {
+        "stages": [real(25, 480, extra=["--strace", "1"])],
+        "rule": "black box: 4-20 (quick) / 8-64 (thorough) independent tasks at -j 1-16 whose commands print planned byte streams (sizes 0, 1, 2, 4095, 4096, 4097, 8192, 65535, 65536, 65537, 150000, 300000; split over stdout and stderr in chunks of 1-70000 bytes, with and without final newline, with sleeps), exit with codes 0-255 or die by HUP/TERM/KILL/USR1/PIPE, use response files (quotes, UTF-8) and outputs in nested new directories; every agent checks cwd, stdin (/dev/null at EOF), open descriptors (only 0,1,2), stdout/stderr being one pipe, output directories, response file content and its argv; n2's stdout must contain each task's stream exactly once and contiguously, a `failed:` line exactly for the non-zero/signalled tasks, and the exit status must reflect them; every third case runs shell snippets (quotes, $$, redirections, subshells, backticks, UTF-8, tabs) under n2 and, as a differential twin, directly with /bin/sh -c, comparing the files produced, and a sample under strace compares the exact execve argv; non-trivial = at least 2 tasks with >= 4096 bytes of output and overlapping execution (from the agent log)",
+        "must_observe": ["agent_events", "task_outputs_checked", "twin_files_compared"],
+        "assumptions": REAL_ASSUME,
     },
 }
